@@ -329,12 +329,30 @@ def run_history(hexdata, actions=None, seed=None, length=0, observe_all=False, o
             steps.append({"m": mact, "real": ";".join(evs) + " ids=" + pool.ids(p)})
         else:               # helper: one model insert per primitive call it made
             for ev, ids in log:
-                _, i, k = ev.split(":")
                 if ids is None:
                     continue
-                mirror.insert(int(i), pool.objs[int(k)])
-                x = xs(int(k))
-                steps.append({"m": ["insert", int(i), x], "real": ev + " ids=" + ids, "helper": kind})
+                f = ev.split(":")
+                ix = lambda t: None if t == "-" else int(t)
+                if f[0] == "ins":
+                    mirror.insert(int(f[1]), pool.objs[int(f[2])])
+                    m = ["insert", int(f[1]), xs(int(f[2]))]
+                elif f[0] == "set":
+                    mirror[int(f[1])] = pool.objs[int(f[2])]
+                    m = ["setitem", int(f[1]), xs(int(f[2]))]
+                elif f[0] == "del":
+                    del mirror[int(f[1])]
+                    m = ["delitem", int(f[1])]
+                elif f[0] == "setslice":
+                    ks = [int(k) for k in f[3].split(",") if k]
+                    mirror[ix(f[1]):ix(f[2])] = [pool.objs[k] for k in ks]
+                    m = ["setslice", f[1] if f[1] == "-" else int(f[1]), f[2] if f[2] == "-" else int(f[2]),
+                         [xs(k) for k in ks]]
+                elif f[0] == "delslice":
+                    del mirror[ix(f[1]):ix(f[2])]
+                    m = ["delslice", f[1] if f[1] == "-" else int(f[1]), f[2] if f[2] == "-" else int(f[2])]
+                else:
+                    raise ValueError(ev)
+                steps.append({"m": m, "real": ev + " ids=" + ids, "helper": kind})
         if [id(o) for o in p] != [id(o) for o in mirror]:
             bad.append({"step": len(explicit) - 1, "why": "opcode list differs from the mirrored Python list",
                         "action": act})
